@@ -75,6 +75,8 @@ def run(rep, tier):
         c01.clause_a(facts, rep, tier)
         clause_b(facts, rep)
         clause_c(facts, rep)
+        from . import c04
+        c04.clause_d(facts, rep)   # numbers keep the value the text denotes only if dropped digits are remembered
     rep.extra['traces_validated_against_impl'] = 0
     rep.trust('clang 14 front end', 'hand-written RFC 8259 reference transducer (sv/e6_vpa.py ref_step)',
               'contract of scalar sub-parsers (one well-formed lexeme of their kind -> their event)')
